@@ -96,7 +96,8 @@ def check(case, rec):
         if writer == "convert":
             # JSON -> `biom convert --to-hdf5`; the command stamps its own
             # generated-by / date and defaults the type to "Table"
-            from biom.cli.table_converter import convert
+            from ..cli import command
+            convert = command("convert")
             from biom import load_table
             jpath = os.path.join(d, "in.json")
             c01.write(t, jpath + ".h5", dict(case, writer="to_hdf5"))
